@@ -1207,3 +1207,15 @@ def main(ctx):
     ctx.histories("chains", roots, execute, depth=clen + 1, nodedup_depth=2,
                   bounds=dict(max_chain_length=clen, roots=len(roots), group_size=4,
                               frames=["eq", "gal", "ec", "sdss", "xyz"], edges=sorted(EDGES.values())))
+
+    # ------------------------------------------------------------ many distinct rotations, then each of them again
+    from mc.worlds import revisit
+    from esutil import coords as _cr
+    TRIPLES = [(round(7.5 * k, 3), round(-80.0 + 4.1 * k, 3), round(360.0 - 11.0 * k, 3)) for k in range(45)]
+    PRA, PDEC = np.array([10.0, 200.0, 359.5]), np.array([20.0, -45.0, 89.0])
+    revisit(ctx, "revisit-after-many-distinct-calls", {
+        "rotate(45 Euler triples)": (lambda: None, [("rotate",) + t for t in TRIPLES], lambda o, c: list(_cr.rotate(c[1], c[2], c[3], PRA.copy(), PDEC.copy()))),
+        "euler(6 selections x epochs, shifted inputs)": (lambda: None, [("euler", 1 + (k % 6), bool(k % 2), 0.37 * k) for k in range(48)],
+                                                         lambda o, c: list(_cr.euler(PRA + c[3], PDEC * 0.5, c[1], b1950=c[2]))),
+        "eq2sdss/sdss2eq(45 inputs)": (lambda: None, [("sdss", 3.3 * k) for k in range(45)], lambda o, c: list(_cr.eq2sdss(PRA + c[1], PDEC * 0.9)) + list(_cr.sdss2eq(PRA * 0.1 - 20 + c[1] * 0.1, PDEC * 0.3))),
+    })
